@@ -243,18 +243,21 @@ pub fn gen_graph(t: &mut Tape) -> Prog {
             t.pick(INT_TYPES).to_string()
         };
         prog.mods[emod[j]].items.push(Item::Enum(EnumDef {
+            sty: 0,
             vis: true,
             name: ename(j),
             doc: vec![],
             base,
             variants: vec![
                 Variant {
+                    sty: 0,
                     name: "A".into(),
                     value: None,
                     default: false,
                     doc: vec![],
                 },
                 Variant {
+                    sty: 0,
                     name: "B".into(),
                     value: None,
                     default: false,
@@ -287,6 +290,7 @@ pub fn gen_graph(t: &mut Tape) -> Prog {
         };
         addr += 0x100;
         prog.mods[m].ext_vals.push(ExtVal {
+            sty: 0,
             vis: true,
             name: format!("ev{k}"),
             ty,
